@@ -198,13 +198,10 @@ def get_base_info(bases):
                 if param.default is not None and param.kind != Parameter.VAR_KEYWORD:
                     bases_required.append(k)
                 bases_params[k] = param
-        additional_props_fallback = base.__dict__.get(
-            OLD_ADDITIONAL_PROPERTIES, TypedPyDefaults.additional_properties_default
-        )
-        additional_props = base.__dict__.get(
-            ADDITIONAL_PROPERTIES, additional_props_fallback
-        )
-        if additional_props and bases_params["kwargs"].kind == Parameter.VAR_KEYWORD:
+        if (
+                "kwargs" in bases_params
+                and bases_params["kwargs"].kind == Parameter.VAR_KEYWORD
+        ):
             del bases_params["kwargs"]
 
     return bases_params, bases_required
@@ -775,8 +772,8 @@ class StructMeta(type):
             cls_dict[ADDITIONAL_PROPERTIES] = cls_dict[OLD_ADDITIONAL_PROPERTIES]
             setattr(clsobj, ADDITIONAL_PROPERTIES, cls_dict[ADDITIONAL_PROPERTIES])
             delattr(clsobj, OLD_ADDITIONAL_PROPERTIES)
-        additional_props = cls_dict.get(
-            ADDITIONAL_PROPERTIES, TypedPyDefaults.additional_properties_default
+        additional_props = getattr(
+            clsobj, ADDITIONAL_PROPERTIES, TypedPyDefaults.additional_properties_default
         )
 
         sig = make_signature(
